@@ -81,7 +81,24 @@ def rule_h1(F):
         if fidx is not None and mir.is_place_op(ops[fidx]):
             ch = mir.value_chain(b, defs, ops[fidx][1][0])
             r.inst("construction func", {"chain": [c[1] for c in ch][:3]})
-            if not any("get_finalized_function" in c[1] for c in ch):
+            def from_jit(bb, dd, chain, depth=0):
+                """the pointer comes out of get_finalized_function - directly, or through an accessor of the module data that is asked on this module's own data (`self.inner.finalized_function(id)`)"""
+                if any("get_finalized_function" in c[1] for c in chain):
+                    return True
+                if depth >= 2:
+                    return False
+                for c in chain:
+                    hb = F.body(c[1]) if c[1] and c[1].startswith("codegen::") and F.has(c[1]) else None
+                    if hb is None or not hb.mir:
+                        continue
+                    t_ = bb.blocks[c[0]]["term"]
+                    if bb is b and not (t_["args"] and mir.is_place_op(t_["args"][0]) and mir.origin_key(bb, dd, t_["args"][0][1]).startswith("arg1")):
+                        continue
+                    hd = mir.Defs(hb)
+                    if from_jit(hb, hd, mir.value_chain(hb, hd, 0), depth + 1):
+                        return True
+                return False
+            if not from_jit(b, defs, ch):
                 r.bad(b.path, "func origin", relfile(b.file), st["line"], "TypedFunc.func does not come from get_finalized_function of this module")
     return r
 
